@@ -13,6 +13,10 @@
 //!       14 get_ref::<Z>(0).store  15 .load     16 container.copy_to_volatile_slice(empty)  17 empty.copy_to_volatile_slice(container)
 //! obs:   class(0 Ok,1 Err,2 panic) ecode count ext [changed byte indices] [dirty page indices]
 //!
+//! Suite C18huge: slice.copy_to / copy_from of k zero-sized elements for HUGE k (a buffer of zero-sized elements may
+//!   hold more than isize::MAX of them and occupies no memory):   case: mode layer op sk k     obs: class count touched
+//!   (layer / op 10|11 / sk as above; touched = 1 iff a byte of the 64-byte container changed)
+//!
 //! Observation does not use the accessors under test: all region memory is filled with FILL through
 //! the raw host pointer before the call and scanned afterwards; every page of every region's
 //! AtomicBitmap (clean before the call) is asked dirty_at afterwards; the caller's buffer / stream is
@@ -34,7 +38,11 @@ fn nogen(_: &mut Rng, _: Tier, _: &mut dyn FnMut(Vec<Tok>)) {}
 fn noexec(_: &[Tok]) -> Vec<Tok> {
     vec![Tok::N(0xbad0bad)]
 }
-pub const SUITES: &[Suite] = &[Suite { name: "C18", gen, exec }, Suite { name: "C18xen", gen: nogen, exec: noexec }];
+pub const SUITES: &[Suite] = &[
+    Suite { name: "C18", gen, exec },
+    Suite { name: "C18xen", gen: nogen, exec: noexec },
+    Suite { name: "C18huge", gen: gen_huge, exec: exec_huge },
+];
 
 const FILL: u8 = 0xaa;
 const SRC: u8 = 0x5a;
@@ -530,4 +538,61 @@ fn perturb(rng: &mut Rng, mut c: Vec<Tok>) -> Vec<Tok> {
         _ => {}
     }
     c
+}
+
+
+// ------------------------------------------------------------------ C18huge
+fn huge_copy<Z: ByteValued, S: BitmapSlice>(sl: &VolatileSlice<S>, op: u64, k: usize) -> (u64, u64) {
+    assert_eq!(std::mem::size_of::<Z>(), 0);
+    let mut buf: Vec<Z> = Vec::new();
+    // SAFETY: zero-sized elements: the capacity of the vector is usize::MAX and there is nothing to initialise
+    unsafe { buf.set_len(k) };
+    let r = if op == 10 {
+        util::catch(|| sl.copy_to::<Z>(&mut buf) as u64)
+    } else {
+        util::catch(|| {
+            sl.copy_from::<Z>(&buf);
+            0
+        })
+    };
+    match r {
+        Some(v) => (0, v),
+        None => (2, 0),
+    }
+}
+fn exec_huge(case: &[Tok]) -> Vec<Tok> {
+    let (layer, op, sk, k) = (case[1].u(), case[2].u(), case[3].u(), case[4].u() as usize);
+    assert!(layer <= 2 && (op == 10 || op == 11) && sk <= 1);
+    let gm = GuestMemoryMmap::<()>::from_ranges(&[(GuestAddress(0x1000), 4096)]).unwrap();
+    let region = gm.iter().next().unwrap();
+    let mut local = vec![FILL; 64];
+    let host = region.as_volatile_slice().unwrap();
+    unsafe { std::ptr::write_bytes(host.ptr_guard_mut().as_ptr(), FILL, 4096) };
+    let (r, touched) = match layer {
+        0 => {
+            let sl = VolatileSlice::from(&mut local[..]);
+            let r = if sk == 0 { huge_copy::<[u8; 0], _>(&sl, op, k) } else { huge_copy::<[u64; 0], _>(&sl, op, k) };
+            (r, local.iter().any(|b| *b != FILL))
+        }
+        _ => {
+            let sl = if layer == 1 { host.subslice(8, 64).unwrap() } else { gm.get_slice(GuestAddress(0x1008), 64).unwrap() };
+            let r = if sk == 0 { huge_copy::<[u8; 0], _>(&sl, op, k) } else { huge_copy::<[u64; 0], _>(&sl, op, k) };
+            let g = host.ptr_guard();
+            (r, (0..4096).any(|i| unsafe { std::ptr::read_volatile(g.as_ptr().add(i)) } != FILL))
+        }
+    };
+    vec![n(r.0), n(r.1), n(touched as u64)]
+}
+fn gen_huge(_rng: &mut Rng, _tier: Tier, emit: &mut dyn FnMut(Vec<Tok>)) {
+    let mode = crate::build_mode();
+    let im = isize::MAX as u64;
+    for layer in 0..=2u64 {
+        for op in [10u64, 11] {
+            for sk in 0..=1u64 {
+                for k in [0u64, 1, 65, 1 << 32, im - 1, im, im + 1, im + 2, (1 << 63) + (1 << 62), u64::MAX - 1, u64::MAX] {
+                    emit(vec![n(mode), n(layer), n(op), n(sk), n(k)]);
+                }
+            }
+        }
+    }
 }
